@@ -35,6 +35,8 @@ Tol(chk, dt) ==
     [] chk = "grad_exp_act" -> SqrtTol(dt) \* autograd d Act(Exp(x), p)/dx  vs  finite differences of expm(hat x) p
     [] chk = "grad_log"   -> SqrtTol(dt)   \* autograd left-perturbation Jacobian of Log  vs  d/dh Log(Exp(h e_i) X)
     [] chk = "grad_logexp" -> SqrtTol(dt)  \* autograd d Log(Exp(x) @ Y)/dx  vs  finite differences
+    [] chk = "grad_jinvp_X" -> SqrtTol(dt) \* autograd left-perturbation Jacobian of Jinvp(X, p) w.r.t. X  vs  second differences
+    [] chk = "grad_jinvp_p" -> SqrtTol(dt) \* autograd Jacobian of Jinvp(X, p) w.r.t. p  vs  Jl^-1(Log X) by finite differences
     [] chk = "grad_zero_slot" -> 0         \* the slot of a group gradient beyond the manifold dimension is exactly zero
     [] chk = "corr_gradient" -> 4096       \* C09: J'^T R' vs sum_i rho'(|R_i|^2) J_i^T R_i for the built-in kernels
     [] chk = "corr_ft_equal" -> 4096       \* C09: Triggs = FastTriggs where rho'' <= 0 or R_i = 0
